@@ -258,7 +258,7 @@ RECOGNISERS = {"f02": rec_f02, "f42": rec_f42}
 
 def streams(tier):
     q = tier == "quick"
-    return [(core.Stream("aliasfifo", "aliasfifo", gen_fifo, pred_fifo, nontrivial_fifo, keep_prefix=1), 60000 if q else 1000000),
+    return [(core.Stream("aliasfifo", "aliasfifo", gen_fifo, pred_fifo, nontrivial_fifo, keep_prefix=1), 40000 if q else 1000000),
             (core.Stream("aliasin", "aliasin", gen_in, pred_in, nontrivial_in, keep_prefix=1, timeout=900), 6000 if q else 200000)]
 
 
